@@ -118,6 +118,9 @@ func trustedImmutableKind(t types.Type) (bool, string) {
 		if n, ok := p.Elem().(*types.Named); ok && n.Obj().Pkg() != nil && n.Obj().Pkg().Path() == "github.com/sirupsen/logrus" {
 			return true, "logrus handle (internally locked)"
 		}
+		if ok, why := trustedHandle(t); ok {
+			return true, why
+		}
 		return false, ""
 	}
 	if n, ok := t.(*types.Named); ok && n.Obj().Pkg() != nil && n.Obj().Pkg().Path() == "reflect" && n.Obj().Name() == "Type" {
@@ -589,6 +592,9 @@ func trustedHandle(t types.Type) (bool, string) {
 	if p, ok := t.(*types.Pointer); ok {
 		if n, ok := p.Elem().(*types.Named); ok && n.Obj().Pkg() != nil && n.Obj().Pkg().Path() == "github.com/sirupsen/logrus" {
 			return true, "logrus handle (internally locked)"
+		}
+		if n, ok := p.Elem().(*types.Named); ok && n.Obj().Pkg() != nil && n.Obj().Pkg().Path() == "regexp" && n.Obj().Name() == "Regexp" {
+			return true, "compiled regular expression (immutable after compilation; safe for concurrent use, package regexp)"
 		}
 	}
 	if n, ok := t.(*types.Named); ok && n.Obj().Pkg() != nil && n.Obj().Pkg().Path() == "reflect" && n.Obj().Name() == "Type" {
